@@ -323,13 +323,15 @@ PROPS["C10"] = {
 
 PROPS["C05"] = {
     "level": "proof",
-    "verus": [],
+    "verus": [{"unit": "formatter", "rlimit": 200}],
     "kani": K_QUOTE,
-    "trusted_base": [KANI, T4, "format_string / escape_unchecked loops and the Compound/Formatter state machine are not yet under contract"],
-    "level_text": "Kani/CBMC complete proofs of the escaper tables (QUOTE_TAB, NEED_ESCAPED == RFC 8259) and the page-crossing guard",
-    "level_note": "tables and guard only",
-    "technique": TECH_K,
-    "explanation": "every table row equals the RFC escape of its byte",
+    "trusted_base": [KANI, T4, VSTD,
+                     "unit formatter: std::io::Write enters as a trait with a ghost byte sequence and the contract of write_all (all bytes on Ok, a prefix on Err); the Formatter trait's default methods are verified inside an inherent impl of CompactFormatter (which uses them unchanged); declared substitution: every byte-string literal b\"..\" becomes the equal array literal (this Verus build gives byte-string literals no value)",
+                     "NOT under contract: format_string / escape_unchecked (pointer loops; CBMC does not finish, outside the Verus subset), the reserve/commit protocol of WriteExt, the Compound state machine that sequences the formatter calls (its variants hold `&mut Serializer`, which Verus cannot take; a Kani harness over a small symbolic document exceeded 10 GB / 600 s), MapKeySerializer, number formatting (itoa / ryu: T4)"],
+    "level_text": "Verus proof that every control-character method of the compact formatter (Formatter's default methods) and of PrettyFormatter, and `indent`, writes exactly the prescribed bytes (brackets, commas, colon; pretty: newline + indent x depth, `: `, empty containers closed at once) and that on a writer error the error is returned and what was written is a prefix of those bytes; Kani/CBMC complete proofs of the escaper tables (QUOTE_TAB, NEED_ESCAPED == RFC 8259) and the page-crossing guard",
+    "level_note": "per-method layout + tables + guard; the string escaper loop and the compound sequencing are not decided",
+    "technique": TECH_VK,
+    "explanation": "wrote(out, out', bytes, ok): out' == out + bytes on Ok, out + prefix(bytes) on Err; every table row equals the RFC escape of its byte",
 }
 
 NOT_APPLICABLE = {
